@@ -52,6 +52,10 @@ func ScanRefs(tab reftable.Table, from string) ([]string, error) {
 			return out, err
 		}
 		if !ok {
+			// the end is final: a reader that asks again must not be handed a record
+			if again, _ := it.NextRef(&r); again {
+				return out, fmt.Errorf("iterator yields a record (%s) after reporting the end of the iteration", RefCanon(&r))
+			}
 			break
 		}
 		out = append(out, RefCanon(&r))
@@ -85,6 +89,9 @@ func ScanLogs(tab reftable.Table, name string, ui uint64, hashSize int) ([]strin
 			return out, err
 		}
 		if !ok {
+			if again, _ := it.NextLog(&l); again {
+				return out, fmt.Errorf("iterator yields a record (%s) after reporting the end of the iteration", LogCanon(&l, hashSize))
+			}
 			break
 		}
 		out = append(out, LogCanon(&l, hashSize))
